@@ -7,7 +7,7 @@ import gen
 import vlib
 
 MANIFEST = {
-    "text": "Coq theorems over the VM model (main loop and the four bulk-copy loops + return-data copy inside opcode bodies), for every program, configuration and folding function: a never-stopping watchdog influences nothing but the poll counter (machines differing only in the polling interval stay equal in all states and errors); once the answer stream has turned to stop, the next main-loop poll ends the run at once and comes within one polling interval of iterations; iterations <= polls * interval along every run; opcode bodies never un-make polls. The eleven polled loops of all stages are inventoried from the Rust source on every run (counter, interval binding, stop branch, and that no `continue`/`break` lies between the poll and the counter bump, so the counter advances on EVERY iteration); for that loop scheme (PolledLoop.v) Coq proves, for every item list, body, interval and counter: never told to stop => the plain fold's result, polls = the poll points; a watchdog that has turned to stop ends the loop at the next poll point with exactly one more poll; n iterations make between n div k and n div k + 1 polls. For the WHOLE analysis the composed model (coq/Pipeline.v: every stage's loop is an instance of that scheme, unification's rounds wrapped without touching Unify.v) carries the end-to-end theorems, for every program, configuration, iteration-order mode and fuel: pipeline_never_stop_interval_irrelevant (never told to stop => the result does not depend on the interval), pipeline_stop_is_error (more polls made than the stop index => the result is the StoppedByWatchdog error, never a layout from partial work), pipeline_stops_within_bound (at most poll_every + 1 polls after the turn); the model is tied to the code by stopping the real analysis at every poll index of small programs (intervals 1, 3, 7, 100) and comparing outcome, stage reached and polls made inside Coq. The later stages' behaviour is also searched directly: the whole analysis is stopped at EVERY poll index k of small contracts (stratified on larger ones) and intervals 1..1000, checking stopped-by-watchdog error, no layout, bounded further polls, and equality with the unmonitored result when never stopped; per-stage poll counts are compared with independent work measures.",
+    "text": "Coq theorems over the VM model (main loop and the four bulk-copy loops + return-data copy inside opcode bodies), for every program, configuration and folding function: a never-stopping watchdog influences nothing but the poll counter (machines differing only in the polling interval stay equal in all states and errors); once the answer stream has turned to stop, the next main-loop poll ends the run at once and comes within one polling interval of iterations; iterations <= polls * interval along every run; opcode bodies never un-make polls. The eleven polled loops of all stages are inventoried from the Rust source on every run (counter, interval binding, stop branch, and that no `continue`/`break` lies between the poll and the counter bump, so the counter advances on EVERY iteration); for that loop scheme (PolledLoop.v) Coq proves, for every item list, body, interval and counter: never told to stop => the plain fold's result, polls = the poll points; a watchdog that has turned to stop ends the loop at the next poll point with exactly one more poll; n iterations make between n div k and n div k + 1 polls. For the WHOLE analysis the composed model (coq/Pipeline.v: every stage's loop is an instance of that scheme, unification's rounds wrapped without touching Unify.v) carries the end-to-end theorems, for every program, configuration, iteration-order mode and fuel: pipeline_never_stop_interval_irrelevant (never told to stop => the result does not depend on the interval), pipeline_stop_is_error (more polls made than the stop index => the result is the StoppedByWatchdog error, never a layout from partial work), pipeline_stops_within_bound (at most poll_every + 1 polls after the turn); the model is tied to the code by stopping the real analysis at every poll index of small programs (intervals 1, 3, 7, 100) and comparing outcome, stage reached and polls made inside Coq. The later stages' behaviour is also searched directly: the whole analysis is stopped at EVERY poll index k of small contracts (stratified on larger ones) and intervals 1..1000, checking stopped-by-watchdog error, no layout, bounded further polls, and equality with the unmonitored result when never stopped; per-stage poll counts are compared with independent work measures. Dispatcher programs with 8..14 short branches (every path shorter than the larger intervals) are part of the stop-at-k and poll-rate suites: the main loop's counter counts iterations of the loop over all threads.",
     "note": "Trusted: Coq kernel; translator T1/T9/T7; harness CountingWatchdog. The type-checker stages' polling is now a theorem "
             "about the composed model (all five loops modelled as PolledLoop instances); what ties that model to the code is the "
             "source inventory + the stop-at-k correspondence (differential, not a proof).",
@@ -60,6 +60,10 @@ def check(ctx):
     b = gen.Asm()
     b.push(0x40).push(0).push(0).push(0).push(0).op("CALLER").op("GAS").op("CALL").op("STOP")
     small.append(b.assemble())
+    # many short paths: a dispatcher with 8..14 branches, every root-to-STOP path shorter than the larger polling intervals --
+    # the main loop's poll counter counts ITERATIONS OF THE LOOP (all threads together), not the steps of one thread
+    for nv in ((8, 12) if ctx.quick else (6, 8, 10, 12, 14, 14)):
+        small.append(gen.compile_layout(gen.random_vars(rng, nv), rng, dispatcher="selector"))
     small += gen.loop_programs(rng, bw, 4 if ctx.quick else 20)
     small += gen.c07_programs(rng, bw, 4 if ctx.quick else 20)
     real = [bytes.fromhex(h) for _, h in gen.real_contracts()]
